@@ -128,7 +128,8 @@ def gen_c10(tier: str, rng: random.Random) -> Iterator[Dict[str, Any]]:
             yield ws_session(carrier, 1, ws_steps, echo_app(2, sends), "ws/c10/%s/big/%d" % (carrier, ln), cfg=cfg2)
 
 
-DECISIONS = ["accept", "accept-sub", "accept-bad-sub", "accept-headers", "close", "denial", "denial-chunks", "return", "raise"]
+DECISIONS = ["accept", "accept-sub", "accept-bad-sub", "accept-headers", "close", "denial", "denial-chunks", "denial-204", "denial-304-chunks",
+             "denial-no-bytes", "return", "raise"]
 
 
 def decision_prog(decision: str) -> List[Any]:
@@ -150,6 +151,18 @@ def decision_prog(decision: str) -> List[Any]:
         prog += [["send", {"type": "websocket.http.response.start", "status": 404, "headers": [["content-length", "9"]]}],
                  ["send", {"type": "websocket.http.response.body", "pat": [61, 0, 4], "more": True}],
                  ["send", {"type": "websocket.http.response.body", "pat": [61, 4, 5], "more": False}]]
+    elif decision == "denial-204":
+        # (a status whose body is suppressed: the response is complete with its head)
+        prog += [["send", {"type": "websocket.http.response.start", "status": 204, "headers": [["x-why", "nothing"]]}],
+                 ["send", {"type": "websocket.http.response.body", "pat": [62, 0, 0], "more": False}]]
+    elif decision == "denial-304-chunks":
+        prog += [["send", {"type": "websocket.http.response.start", "status": 304, "headers": []}],
+                 ["send", {"type": "websocket.http.response.body", "pat": [63, 0, 3], "more": True}],
+                 ["send", {"type": "websocket.http.response.body", "pat": [63, 3, 0], "more": False}]]
+    elif decision == "denial-no-bytes":
+        prog += [["send", {"type": "websocket.http.response.start", "status": 403, "headers": []}],
+                 ["send", {"type": "websocket.http.response.body", "pat": [64, 0, 0], "more": True}],
+                 ["send", {"type": "websocket.http.response.body", "pat": [64, 0, 0], "more": False}]]
     elif decision == "return":
         return prog + [["return"]]
     elif decision == "raise":
@@ -164,7 +177,7 @@ def gen_c11(tier: str, rng: random.Random) -> Iterator[Dict[str, Any]]:
         for wsver in ("13", "12", None, "13, 8"):
             for version in ("1.1", "1.0"):
                 for upgrade in ("websocket", "WebSocket", "WEBSOCKET"):
-                    for connection in ("Upgrade", "keep-alive, Upgrade", "upgrade", "UPGRADE , x"):
+                    for connection in ("Upgrade", "keep-alive, Upgrade", "upgrade", "UPGRADE , x", "keep-alive ,\tupgrade"):
                         variants.append(dict(key=key, wsver=wsver, version=version, upgrade=upgrade, connection=connection))
     if tier == "quick":
         keep = [v for v in variants if v["upgrade"] == "websocket" and v["connection"] == "Upgrade"]
